@@ -330,6 +330,13 @@ func makeScenario(src *vs.Source, tier string, idx int64) (*scenario, error) {
 	byFam := map[string][]int{}
 	for i, e := range catalogue {
 		byFam[e.family] = append(byFam[e.family], i)
+		// decoders are few among ~400 operations but are where parsers keep
+		// state (pools, caches, scratch buffers): give them six more tickets
+		if strings.HasPrefix(e.name, "Unmarshal") || strings.Contains(e.name, ".Scan") || strings.Contains(e.name, "UnmarshalJSON") {
+			for k := 0; k < 6; k++ {
+				byFam[e.family] = append(byFam[e.family], i)
+			}
+		}
 	}
 	tot := 0
 	for _, f := range families {
